@@ -1,0 +1,55 @@
+//go:build verif
+// +build verif
+
+package redact
+
+import (
+	b "github.com/cockroachdb/redact/internal/buffer"
+	"github.com/cockroachdb/redact/internal/escape"
+	m "github.com/cockroachdb/redact/internal/markers"
+	ifmt "github.com/cockroachdb/redact/internal/rfmt"
+)
+
+// This file re-exports internals for the verification harness in /verif.
+// It is only compiled with the "verif" build tag.
+
+// VerifBufferState exposes the hidden state of a ManualBuffer.
+func VerifBufferState(mb *ManualBuffer) (buf []byte, validUntil int, mode int, markerOpen bool, capacity int) {
+	return b.VerifState(mb)
+}
+
+// VerifBuilderState exposes the hidden state of a StringBuilder.
+func VerifBuilderState(sb *StringBuilder) (buf []byte, validUntil int, mode int, markerOpen bool, capacity int) {
+	return b.VerifState(&sb.Buffer)
+}
+
+// VerifInternalEscapeBytes exposes the internal escape routine.
+func VerifInternalEscapeBytes(bs []byte, startLoc int, breakNewLines, strip bool) []byte {
+	return escape.InternalEscapeBytes(bs, startLoc, breakNewLines, strip)
+}
+
+// VerifConstants returns the marker constants and regexp sources.
+func VerifConstants() map[string]string {
+	return map[string]string{
+		"StartS":           m.StartS,
+		"EndS":             m.EndS,
+		"EscapeMarkS":      m.EscapeMarkS,
+		"RedactedS":        m.RedactedS,
+		"ReStripSensitive": m.ReStripSensitive.String(),
+		"ReStripMarkers":   m.ReStripMarkers.String(),
+	}
+}
+
+// VerifModes returns the numeric values of the output modes.
+func VerifModes() (unsafeEscaped, safeEscaped, safeRaw, preRedactable int) {
+	return int(b.UnsafeEscaped), int(b.SafeEscaped), int(b.SafeRaw), int(b.PreRedactable)
+}
+
+// VerifPoolAllocs returns the number of printers allocated by the pool.
+func VerifPoolAllocs() int64 { return ifmt.VerifPoolAllocs() }
+
+// VerifResetSafeTypes empties the registry of safe types.
+func VerifResetSafeTypes() { ifmt.VerifResetSafeTypes() }
+
+// VerifClearErrorFn removes the registered error redaction function.
+func VerifClearErrorFn() { ifmt.VerifClearErrorFn() }
